@@ -177,13 +177,35 @@ def tlc_model(module, cfg, workers=4, timeout=1800, extra=()):
 
 
 def split_trace(path, parts):
-    """Round-robin split keeping a map back to original line numbers."""
+    """Splits a trace of independent events over `parts` files, keeping a map back to original line
+    numbers. Consecutive lines carrying the same group id "g" (events that refer to each other by
+    relative line offsets) stay together."""
     lines = open(path).read().splitlines()
     lines = [x for x in lines if x.strip()]
-    parts = max(1, min(parts, len(lines)))
+    groups, cur, curg = [], [], None
+    rg = re.compile(r'"g":(-?\d+)')
+    for i, ln in enumerate(lines):
+        m = rg.search(ln[:400]) or rg.search(ln[-200:])
+        g = m.group(1) if m else None
+        if g is not None and g == curg:
+            cur.append(i)
+        else:
+            if cur:
+                groups.append(cur)
+            cur, curg = [i], g
+    if cur:
+        groups.append(cur)
+    parts = max(1, min(parts, len(groups)))
+    # greedy balance by bytes
+    bins = [[] for _ in range(parts)]
+    load = [0] * parts
+    for grp in sorted(groups, key=lambda g: -sum(len(lines[i]) for i in g)):
+        b = load.index(min(load))
+        bins[b].append(grp)
+        load[b] += sum(len(lines[i]) for i in grp) + 2000 * len(grp)
     files, maps = [], []
-    for p in range(parts):
-        idx = list(range(p, len(lines), parts))
+    for p, b in enumerate(bins):
+        idx = [i for grp in sorted(b) for i in grp]
         fp = "%s.part%d" % (path, p)
         with open(fp, "w") as f:
             for i in idx:
